@@ -152,6 +152,23 @@ void drv_c02_mpz(int tier, unsigned long seed, const char *extra) {
         callf("mpz_divisible_2exp_p", 0, (uint64_t)shs[j]); callf("mpz_mul_2exp", 4, 0, (uint64_t)shs[j]); callf("mpz_divisible_2exp_p", 4, (uint64_t)shs[j]);
         callf("mpz_congruent_2exp_p", 0, 4, (uint64_t)shs[j]); callf("mpz_add", 4, 4, 0); callf("mpz_congruent_2exp_p", 4, 0, (uint64_t)shs[j]); }
     }
+    /* 2exp rounding corners: n = +-(2^t - 1), +-(2^t - 2^m), +-2^t, +-(2^t + 1) with t = 64a + c, shifted by counts around c, 64 and t:
+       the quotient of all-ones limbs that the rounding increment carries out of, the top limb that shifts out completely, remainders of one bit */
+    if (k == 0) { static const int cs[] = {1, 17, 63, 0, 32}; int a, ci, form, si;
+      for (a = i % 2; a < 4; a += 2) for (ci = 0; ci < 5; ci++) for (form = 0; form < 4; form++) {
+        int c = cs[ci], t = 64 * a + c; int sv[8], ns = 0; if (t == 0) continue;
+        sv[ns++] = c ? c : 64; sv[ns++] = c + 64; sv[ns++] = t - 1; sv[ns++] = t; sv[ns++] = t + 1; sv[ns++] = 1; sv[ns++] = 63 + (int)rnd_below(3); sv[ns++] = (int)rnd_below(t + 3);
+        callf("mpz_set_ui", 0, (uint64_t)1); callf("mpz_mul_2exp", 0, 0, (uint64_t)t);
+        if (form == 0) callf("mpz_sub_ui", 0, 0, (uint64_t)1);
+        else if (form == 1) { callf("mpz_set_ui", 4, (uint64_t)1); callf("mpz_mul_2exp", 4, 4, (uint64_t)rnd_below(t)); callf("mpz_sub", 0, 0, 4); }
+        else if (form == 3) callf("mpz_add_ui", 0, 0, (uint64_t)1);
+        for (sa = 0; sa < 2; sa++) { int t6;
+          if (sa) callf("mpz_neg", 0, 0);
+          for (si = 0; si < ns; si++) for (t6 = 0; t6 < 6; t6++) {
+            if (sv[si] < 0) continue;
+            shrinkz(2); callf(e2[t6], 2, 0, (uint64_t)sv[si]);
+            if ((si + t6) % 3 == 0) { callf("mpz_set", 2, 0); shrinkz(2); callf(e2[t6], 2, 2, (uint64_t)sv[si]); } } }
+      } }
     /* d = 0 where the manual defines it: only zero is divisible by zero; congruent mod 0 means equal */
     callf("mpz_set_ui", 1, (uint64_t)0); callf("mpz_divisible_p", 0, 1); callf("mpz_set_ui", 4, (uint64_t)0); callf("mpz_divisible_p", 4, 1);
     callf("mpz_divisible_ui_p", 0, (uint64_t)0); callf("mpz_divisible_ui_p", 4, (uint64_t)0);
